@@ -136,7 +136,9 @@ def model_stage(ctx):
     for r in cov_runs:
         z = set(r.zero_cov)
         never = z if never is None else (never & z)
-    never = sorted((never or set()) - {"SSendNone"})     # SSendNone exists only for MUT_SharedReader
+    # SSendNone exists only for MUT_SharedReader; SCloserWait / SCloseChan only for the code before fix 9cf62fdb
+    # (DEV_HandlerAddedAfterWait: the closer goroutine waited and closed the channel), exercised by its counterexample run
+    never = sorted((never or set()) - {"SSendNone", "SCloserWait", "SCloseChan"})
     ctx.cov["actions_never_taken"] = never
     if never:
         raise vlib.InfraError("ConnStream actions never taken in any coverage run (vacuous model): %s" % never)
